@@ -149,20 +149,23 @@ Challenge ==
        THEN /\ header' = BuildHeader(meta)
             /\ phase' = "challenged"
             /\ Record([a |-> "Challenge", args |-> [x |-> 0],
-                       exp |-> [status |-> 401, has_header |-> TRUE, scheme |-> "Bearer",
-                                names |-> Names(BuildHeader(meta))]], FALSE)
+                       exp |-> [status |-> 401, has_header |-> TRUE]], FALSE)
        ELSE /\ header' = <<>>
             /\ phase' = "done"
             /\ Record([a |-> "Challenge", args |-> [x |-> 0],
-                       exp |-> [status |-> 401, has_header |-> FALSE, scheme |-> "",
-                                names |-> <<>>]], TRUE)
+                       exp |-> [status |-> 401, has_header |-> FALSE]], TRUE)
 
 (* The client applies the six public Parse* functions to the header value. *)
+(* m_scheme / m_names: the challenge as an RFC 7235 tokenizer sees it -     *)
+(* the model's account of buildWWWAuthenticate, compared in the same step   *)
+(* as the parse results (a difference there is drift, never a verdict, and  *)
+(* must not keep the judged comparison from happening).                     *)
 Parse ==
     /\ phase = "challenged"
     /\ UNCHANGED <<meta, header>>
     /\ phase' = "done"
-    /\ Record([a |-> "Parse", args |-> [x |-> 0], exp |-> ParseAll(header)], TRUE)
+    /\ Record([a |-> "Parse", args |-> [x |-> 0],
+               exp |-> ParseAll(header) @@ [m_scheme |-> "Bearer", m_names |-> Names(header)]], TRUE)
 
 Init ==
     /\ phase = "start"
@@ -171,7 +174,7 @@ Init ==
     /\ hist = << [a |-> "Init", args |-> [parser |-> Parser], exp |-> [x |-> 0]] >>
 
 Next ==
-    \/ \E m \in Metas : Configure(m)
+    \/ (phase = "start" /\ \E m \in Metas : Configure(m))
     \/ Challenge
     \/ Parse
 
